@@ -38,7 +38,7 @@ CASES = [
  N("closed-connector-msg", CN, "        if self._closed:\n            raise ClientConnectionError(\"Connector is closed.\")\n        key = req.connection_key\n", "        if self._closed:\n            raise ClientConnectionError(\"Connector is closed\")\n        key = req.connection_key\n", "message text", ("C07",)),
  N("reqclose-any", RQ, "        for value in self.headers.getall(hdrs.CONNECTION, ()):\n            if \"close\" in (token.strip().lower() for token in value.split(\",\")):\n", "        for value in self.headers.getall(hdrs.CONNECTION, ()):\n            tokens = [token.strip().lower() for token in value.split(\",\")]\n            if \"close\" in tokens:\n", "token list through a local", ("C06",)),
  N("ws-abort-helper-order", WS, "        if code == WSCloseCode.ABNORMAL_CLOSURE:\n", "        if code is WSCloseCode.ABNORMAL_CLOSURE:\n", "identity comparison of the enum member", ("C13",)),
- N("fresh-writer-local", WP, "            request._payload_writer = StreamWriter(self, self._loop)\n            resp = Response(\n", "            fresh_writer = StreamWriter(self, self._loop)\n            request._payload_writer = fresh_writer\n            resp = Response(\n", "fresh writer through a local", ("C05",)),
+ N("fresh-writer-local", WP, "            request._payload_writer = StreamWriter(self, self._loop)\n            text = exc.text\n", "            fresh_writer = StreamWriter(self, self._loop)\n            request._payload_writer = fresh_writer\n            text = exc.text\n", "fresh writer through a local", ("C05",)),
  N("cleanup-order-local", WA, "            await self._exit_started_contexts()\n        finally:\n            if self.on_cleanup.frozen:\n                await self.on_cleanup.send(self)\n", "            await self._exit_started_contexts()\n        finally:\n            frozen = self.on_cleanup.frozen\n            if frozen:\n                await self.on_cleanup.send(self)\n", "frozen flag through a local", ("C20",)),
  N("rangecode-guard", FR, "            self._compression = False\n\n        # If we are sending 0 bytes", "            if self._compression:\n                self._compression = False\n\n        # If we are sending 0 bytes", "conditional reset", ("C15",)),
  N("bounded-floor-order", HP, "            else max(self._max_decompress_size, low_water, 1)\n", "            else max(1, self._max_decompress_size, low_water)\n", "argument order of max()", ("C09",)),
